@@ -27,6 +27,7 @@ macro_rules! properties {
 properties! {
     "C01" => c01,
     "C02" => c02,
+    "C03" => c03,
     "C19" => c19,
 }
 
